@@ -104,6 +104,8 @@ def delegation(ctx, idx, d, r, base_name):
                 problems.append("%s is not forwarded" % k)
             elif isinstance(v, Scal) and v.const is not None and v.const != want:
                 problems.append("default %s is %s, not %d" % (k, v.const, want))
+            elif isinstance(v, Scal) and v.const is not None and k in own:
+                problems.append("the constant %s is passed as %s whatever the caller gave: the command's own %s argument never reaches the base (defaults merged over the arguments instead of under them)" % (v.const, k, k))
             elif isinstance(v, Scal) and v.const is None and ("kw:" + k) not in (v.sym or ""):
                 problems.append("%s does not come from the caller" % k)
     # the value returned is the clamped value of that call
@@ -272,6 +274,43 @@ def run(ctx, idx):
             ctx.violate("C08.g", con, d.module.rel, nt[0][1], nt[0][2])
         else:
             ctx.hold("C08.g", con, d.module.rel, d.execute.node.lineno, "numeric parameters are not used as booleans", nontrivial=False)
+    # positions removed from a list one after another: after the first removal every later position has moved
+    for name in CONVERSIONS:
+        d, r = res[name]
+        fi = d.cls.methods.get("execute")
+        if fi is None:
+            continue
+        for lp in [n for n in own_nodes(fi.node) if isinstance(n, ast.For) and isinstance(n.target, ast.Name)]:
+            dels = [t for st in ast.walk(lp) if isinstance(st, ast.Delete) for t in st.targets if isinstance(t, ast.Subscript) and isinstance(t.slice, ast.Name) and t.slice.id == lp.target.id]
+            pops = [c for c in ast.walk(lp) if isinstance(c, ast.Call) and isinstance(c.func, ast.Attribute) and c.func.attr == "pop" and c.args and isinstance(c.args[0], ast.Name) and c.args[0].id == lp.target.id]
+            if not dels and not pops:
+                continue
+            it = K.expand(fi, lp.iter)
+            positions = None
+            if isinstance(it, (ast.ListComp, ast.GeneratorExp)) and isinstance(it.elt, ast.Name):
+                g = it.generators[0]
+                try:
+                    src_ = idx.const(fi.module, g.iter, fi)
+                except KeyError:
+                    src_ = None
+                if isinstance(src_, (list, tuple)):
+                    if isinstance(g.target, ast.Name) and g.target.id == it.elt.id:
+                        positions = list(src_)
+                    elif isinstance(g.target, ast.Tuple):
+                        k_ = [i for i, e in enumerate(g.target.elts) if isinstance(e, ast.Name) and e.id == it.elt.id]
+                        if k_ and all(isinstance(x, (list, tuple)) and len(x) > k_[0] for x in src_):
+                            positions = [x[k_[0]] for x in src_]
+            elif isinstance(it, (ast.List, ast.Tuple)):
+                try:
+                    positions = list(idx.const(fi.module, it, fi))
+                except KeyError:
+                    positions = None
+            if positions is None or not all(isinstance(x, int) for x in positions):
+                continue
+            stale = any(0 <= a < b for i, a in enumerate(positions) for b in positions[i + 1:])
+            con = "%s.execute::positions-removed-in-sequence" % d.key
+            ctx.ob("C08.h", con, d.module.rel, lp.lineno, not stale, "positions are removed from the back, or relative to the end" if not stale else
+                   "positions %s are removed one after another in ascending order: once position %d is gone, position %d names the element after the one meant (when both ends collapse the highest control point itself is dropped and the maximum maps to the wrong normal value)" % (positions, positions[0], positions[-1]))
     d, r = res["NormalizeMeanToMid"]
     con = "%s.execute::control-points" % d.key
     sup = [x for x in r.super_calls if x[0].func.attr == "execute" and x[1] is not None]
